@@ -1411,7 +1411,10 @@ OTHER_UNITS = ["Fraction", "Number", "Duration (years)", "Rate (per year)", "Pro
 
 def _units_sites(v):
     out = []
-    for i, t in enumerate(v.required_tables()[:8]):
+    tabs = list(enumerate(v.required_tables()))
+    # tables of unit-less parameters (databook units 'N.A.') first: they are checked by ParameterSet only (parameters.py:401-405)
+    na = [(i, t) for i, t in tabs if "units" in t.cols and t.rows and str(t.ws.cell(row=t.rows[0], column=t.cols["units"]).value).strip().lower() == "n.a."]
+    for i, t in na[:3] + [x for x in tabs if x not in na][:8]:
         if "units" not in t.cols:
             continue
         for k, r in enumerate(t.rows[:2]):
@@ -1731,3 +1734,281 @@ def _db_ignore_sheet(v, site):
 
 reg("db.ignored_sheet", DB, "accept", "data.py:360-361 sheets whose title starts with '#ignore' are skipped", lambda v: [0], _db_ignore_sheet, "semantic")
 reg("db.identity", DB, "accept", "unchanged valid databook", lambda v: [0], lambda v, site: None, "semantic")
+
+
+# ======================================================================================== PROGRAM BOOK entries
+PB = "progbook"
+
+
+class PbView:
+    def __init__(self, wb, F=None, D=None):
+        self.wb, self.F, self.D = wb, F, D
+        self.ws = {ws.title: ws for ws in wb.worksheets}
+        self.progs, self.pop_cols, self.comp_cols = [], {}, {}
+        ws = self.ws.get("Program targeting")
+        if ws is not None:
+            sup = {}
+            for c in ws[1]:
+                if isinstance(c.value, str) and c.value.strip():
+                    sup[c.value.strip().lower()] = c.column
+            p0 = sup.get("targeted to (populations)")
+            c0 = sup.get("targeted to (compartments)")
+            if p0 and c0:
+                for c in ws[2]:
+                    if isinstance(c.value, str) and c.value.strip():
+                        if p0 <= c.column < c0:
+                            self.pop_cols[c.value.strip()] = c.column
+                        elif c.column >= c0:
+                            self.comp_cols[c.value.strip()] = c.column
+            for r in range(3, ws.max_row + 1):
+                if xw.row_is_blank(ws, r):
+                    break
+                self.progs.append({"code": _s(ws.cell(row=r, column=1).value), "label": _s(ws.cell(row=r, column=2).value), "row": r})
+        self.spending = _tdve_tables(self.ws["Spending data"]) if "Spending data" in self.ws else []
+        self.effects = []
+        ws = self.ws.get("Program effects")
+        if ws is not None:
+            for r0, r1 in xw.table_blocks(ws):
+                hdr = {}
+                for c in ws[r0][1:]:
+                    if isinstance(c.value, str) and c.value.strip():
+                        hdr[c.value.strip()] = c.column
+                self.effects.append({"ws": ws, "r0": r0, "r1": r1, "name": _s(ws.cell(row=r0, column=1).value), "hdr": hdr, "rows": list(range(r0 + 1, r1 + 1))})
+
+    def target_marks(self, cols):
+        """(prog index, heading) pairs with a 'y'"""
+        ws = self.ws["Program targeting"]
+        out = []
+        for i, p in enumerate(self.progs):
+            for h, c in cols.items():
+                if _yes(ws.cell(row=p["row"], column=c).value):
+                    out.append((i, h))
+        return out
+
+    def effect_values(self):
+        """(table index, row, program heading) cells holding a program outcome"""
+        special = {"baseline value", "coverage interaction", "impact interaction", "uncertainty"}
+        out = []
+        for i, t in enumerate(self.effects):
+            for r in t["rows"]:
+                for h, c in t["hdr"].items():
+                    if h.lower() not in special and _isnum(t["ws"].cell(row=r, column=c).value):
+                        out.append((i, r, h))
+        return out
+
+    def spend_row(self, t, label):
+        for r in t.rows:
+            if t.label(r).lower() == label.lower():
+                return r
+        return None
+
+
+def _pb_heading_sites(which):
+    def f(v):
+        cols = v.pop_cols if which == "pop" else v.comp_cols
+        heads = []
+        for i, h in v.target_marks(cols):
+            if h not in heads:
+                heads.append(h)
+        return _idx(heads, 4)
+
+    return f
+
+
+def _pb_heading_apply(which):
+    def f(v, site):
+        cols = v.pop_cols if which == "pop" else v.comp_cols
+        heads = []
+        for i, h in v.target_marks(cols):
+            if h not in heads:
+                heads.append(h)
+        v.ws["Program targeting"].cell(row=2, column=cols[heads[site]]).value = "ZZ unknown heading"
+
+    return f
+
+
+reg("pb.unknown_population_heading", PB, "reject", "programs.py:593-598 'The program book contains population ... while the databook contains ...' (InvalidProgramBook via 490-494)", _pb_heading_sites("pop"), _pb_heading_apply("pop"))
+reg("pb.unknown_compartment_heading", PB, "reject", "programs.py:602-614 'The program book contains compartment ... while the Framework contains ...' (InvalidProgramBook)", _pb_heading_sites("comp"), _pb_heading_apply("comp"))
+
+
+def _pb_effect_name_apply(v, site):
+    t = v.effects[site]
+    t["ws"].cell(row=t["r0"], column=1).value = "ZZ unknown parameter"
+
+
+reg("pb.unknown_parameter_in_effects", PB, "reject", "programs.py:801-807 'Program name ... was not found in the framework parameters or in the databook transfers' (InvalidProgramBook via 502-506)", lambda v: _idx(v.effects, 5), _pb_effect_name_apply)
+
+
+def _pb_effect_prog_sites(v):
+    seen = []
+    for i, r, h in v.effect_values():
+        if (i, h) not in seen:
+            seen.append((i, h))
+    return _idx(seen, 6)
+
+
+def _pb_effect_prog_apply(v, site):
+    seen = []
+    for i, r, h in v.effect_values():
+        if (i, h) not in seen:
+            seen.append((i, h))
+    i, h = seen[site]
+    t = v.effects[i]
+    t["ws"].cell(row=t["r0"], column=t["hdr"][h]).value = "zz_prog"
+
+
+reg("pb.unknown_program_in_effects", PB, "reject", "programs.py:859-861 'The heading ... was not recognized as a program name or a special token' (InvalidProgramBook)", _pb_effect_prog_sites, _pb_effect_prog_apply)
+
+
+def _pb_effect_rows(v):
+    rows = []
+    for i, r, h in v.effect_values():
+        if (i, r) not in rows:
+            rows.append((i, r))
+    return rows
+
+
+def _pb_effect_pop_apply(v, site):
+    i, r = _pb_effect_rows(v)[site]
+    v.effects[i]["ws"].cell(row=r, column=1).value = "ZZ unknown population"
+
+
+reg("pb.unknown_population_in_effects", PB, "reject", "programs.py:825-827 'Population ... was not found in the databook' (InvalidProgramBook)", lambda v: _idx(_pb_effect_rows(v), 6), _pb_effect_pop_apply)
+
+
+def _pb_baseline_sites(v):
+    return [k for k, (i, r) in enumerate(_pb_effect_rows(v)) if "Baseline value" in v.effects[i]["hdr"] or "baseline value" in {h.lower() for h in v.effects[i]["hdr"]}][:6]
+
+
+def _pb_baseline_apply(v, site):
+    i, r = _pb_effect_rows(v)[site]
+    t = v.effects[i]
+    c = [c for h, c in t["hdr"].items() if h.lower() == "baseline value"][0]
+    t["ws"].cell(row=r, column=c).value = None
+
+
+reg("pb.missing_baseline", PB, "reject", "programs.py:867-868 'program outcomes are defined but the baseline value is missing' (InvalidProgramBook)", _pb_baseline_sites, _pb_baseline_apply)
+
+
+def _pb_effect_text_apply(v, site):
+    i, r, h = v.effect_values()[site]
+    t = v.effects[i]
+    t["ws"].cell(row=r, column=t["hdr"][h]).value = "abc"
+
+
+reg("pb.text_in_outcome_cell", PB, "reject", "programs.py:859-865 a program outcome must be a number ('Error in cell ...', InvalidProgramBook)", lambda v: _idx(v.effect_values(), 6), _pb_effect_text_apply)
+
+SPEND_ROWS = ["Annual spend", "Unit cost"]
+
+
+def _pb_spend_sites(v):
+    return [[i, j] for i, t in enumerate(v.spending[:5]) for j, lab in enumerate(SPEND_ROWS) if v.spend_row(t, lab)]
+
+
+def _pb_del_spend_row(v, site):
+    t = v.spending[site[0]]
+    t.ws.delete_rows(v.spend_row(t, SPEND_ROWS[site[1]]))
+
+
+reg("pb.missing_spending_row", PB, "reject", "programs.py:725-736 every program table needs the 'Annual spend' and 'Unit cost' rows (InvalidProgramBook via 496-500)", _pb_spend_sites, _pb_del_spend_row)
+
+
+def _pb_blank_spend(v, site):
+    t = v.spending[site[0]]
+    t.blank_values(v.spend_row(t, SPEND_ROWS[site[1]]))
+
+
+reg("pb.missing_spending_data", PB, "reject", "programs.py:739-741 'Unit cost data / Spending data for ... was not entered' (InvalidProgramBook)", _pb_spend_sites, _pb_blank_spend)
+
+
+def _pb_del_sheet_sites(v):
+    return [t for t in ("Program targeting", "Spending data", "Program effects") if t in v.ws]
+
+
+reg("pb.delete_sheet", PB, "reject", "programs.py:489-506 the three sheets 'Program targeting', 'Spending data', 'Program effects' are read unconditionally (InvalidProgramBook)", _pb_del_sheet_sites, lambda v, site: v.wb.remove(v.ws[site]))
+
+
+def _pb_spend_name_apply(v, site):
+    t = v.spending[site[0]]
+    t.ws.cell(row=t.r0, column=1).value = ["zz_prog", None][site[1]]
+
+
+reg("pb.unknown_program_in_spending", PB, "reject", "programs.py:717 a spending table must carry the name of a program of the targeting sheet; excel.py:945-947 (InvalidProgramBook)", lambda v: [[i, j] for i in _idx(v.spending, 4) for j in range(2)], _pb_spend_name_apply)
+
+
+def _pb_all_apply(v, site):
+    p = v.progs[site]
+    old = p["code"]
+    for ws in v.wb.worksheets:
+        for row in ws.iter_rows():
+            for c in row:
+                if isinstance(c.value, str) and c.value.strip() == old:
+                    c.value = "All"
+
+
+reg("pb.program_named_all", PB, "reject", "programs.py:618-620 a program cannot be named 'all', which is a reserved keyword (InvalidProgramBook)", lambda v: _idx(v.progs, 3), _pb_all_apply)
+
+
+def _pb_currency_sites(v):
+    return [[i, j] for i, t in enumerate(v.spending[:4]) for j, lab in enumerate(SPEND_ROWS) if v.spend_row(t, lab) and "units" in t.cols and len(v.spending) > 0]
+
+
+def _pb_currency_apply(v, site):
+    t = v.spending[site[0]]
+    cell = t.ws.cell(row=v.spend_row(t, SPEND_ROWS[site[1]]), column=t.cols["units"])
+    cur = cell.value if isinstance(cell.value, str) else "$/year"
+    cell.value = "ZZD/" + cur.split("/", 1)[1] if "/" in cur else "ZZD"
+
+
+reg("pb.multiple_currencies", PB, "reject", "programs.py:747-754 'The progbook contains multiple currencies' (InvalidProgramBook)", _pb_currency_sites, _pb_currency_apply)
+
+
+def _pb_untarget_sites(v):
+    out = []
+    for i in _idx(v.progs, 4):
+        out += [[i, "pop"]] if any(k == i for k, h in v.target_marks(v.pop_cols)) else []
+        out += [[i, "comp"]] if any(k == i for k, h in v.target_marks(v.comp_cols)) else []
+    return out
+
+
+def _pb_untarget_apply(v, site):
+    ws = v.ws["Program targeting"]
+    cols = v.pop_cols if site[1] == "pop" else v.comp_cols
+    for c in cols.values():
+        ws.cell(row=v.progs[site[0]]["row"], column=c).value = "N"
+
+
+reg("pb.program_targets_nothing", PB, "reject", "programs.py:994-1012 ProgramSet.validate: 'Program ... does not target any compartments / populations'", _pb_untarget_sites, _pb_untarget_apply, "semantic")
+
+OPTIONAL_SPEND_ROWS = ["Capacity constraint", "Saturation", "Coverage"]
+
+
+def _pb_optional_sites(v):
+    return [[i, j] for i, t in enumerate(v.spending[:4]) for j, lab in enumerate(OPTIONAL_SPEND_ROWS) if v.spend_row(t, lab)]
+
+
+def _pb_optional_apply(v, site):
+    t = v.spending[site[0]]
+    t.blank_values(v.spend_row(t, OPTIONAL_SPEND_ROWS[site[1]]))
+
+
+reg("pb.blank_optional_rows", PB, "accept", "programs.py:739-741 only unit cost and spending are required; capacity constraint, saturation and coverage may be empty", _pb_optional_sites, _pb_optional_apply, "semantic")
+
+
+def _pb_ignore_row_apply(v, site):
+    t = v.spending[site]
+    t.ws.insert_rows(t.r0 + 1)
+    t.ws.cell(row=t.r0 + 1, column=1).value = "#ignore comment"
+    t.ws.cell(row=t.r0 + 1, column=4).value = "text"
+
+
+reg("pb.ignore_row_in_spending", PB, "accept", "docs/general/skipping-excel-cells.ipynb (Spending data: same #ignore rules as databook tables)", lambda v: _idx(v.spending, 4), _pb_ignore_row_apply, "semantic")
+
+
+def _pb_comment_table_apply(v, site):
+    ws = v.ws["Program targeting"]
+    _append_table(ws, [["Comments below the main table are allowed"], ["second line", 1, 2]])
+
+
+reg("pb.comment_below_targeting", PB, "accept", "docs/general/skipping-excel-cells.ipynb (Program targeting: extra content can be placed below the main table after a blank row); programs.py:562", lambda v: [0] if "Program targeting" in v.ws else [], _pb_comment_table_apply, "semantic")
+reg("pb.identity", PB, "accept", "unchanged valid program book", lambda v: [0], lambda v, site: None, "semantic")
